@@ -3,8 +3,10 @@
 # measurement.  exit 1 on such a change is a false alarm; exit 2 (undecided) is not an alarm but is listed.
 cd /verif
 W=/tmp/rws-harmless-repo; B=/tmp/rws-harmless-build
-git -C /repo worktree remove --force $W 2>/dev/null; rm -rf $W $B
+git -C /repo worktree remove --force $W 2>/dev/null; rm -rf $W $B $S
 git -C /repo worktree add -q --detach $W HEAD || exit 2
+# the checks run from a SNAPSHOT of /verif, so that contracts can be edited while a matrix runs
+S=/tmp/rws-harmless-verif; rm -rf $S; mkdir -p $S; rsync -a --exclude build --exclude .git --exclude seeded --exclude seeded_obsolete --exclude harmless --exclude "falsify/docroot" /verif/ $S/
 mkdir -p $B
 props=$(python3 -c "import json;print(' '.join(c['property_id'] for c in json.load(open('MANIFEST.json'))['checks']))")
 for d in harmless/*/; do
@@ -12,10 +14,10 @@ for d in harmless/*/; do
   if ! git -C $W apply /verif/harmless/$id/patch.diff >/dev/null 2>&1; then echo "$id patch-does-not-apply"; git -C $W checkout -- .; continue; fi
   line="$id"
   for p in $props; do
-    out=$(RWS_REPO=$W RWS_BUILD_DIR=$B RWS_EVIDENCE_DIR=$B/evidence ./check $p 2>&1); rc=$?
+    out=$(RWS_REPO=$W RWS_BUILD_DIR=$B RWS_EVIDENCE_DIR=$B/evidence $S/check $p 2>&1); rc=$?
     if [ $rc -ne 0 ]; then line="$line | $p exit=$rc: $(echo "$out" | grep -E "^(FAILED-OBLIGATION|FAILED-ON-REAL-CODE|UNDECIDED)" | head -1 | cut -c1-200)"; fi
   done
   echo "$line"
   git -C $W checkout -- .
 done
-git -C /repo worktree remove --force $W; rm -rf $W $B
+git -C /repo worktree remove --force $W; rm -rf $W $B $S
